@@ -60,6 +60,12 @@ func storeRead(fs *efivarfs.Efivarfs, name string) string {
 			db, err = fs.Getdbx()
 		}
 		if err != nil {
+			// the typed getter cannot decode the stored value (a list type the decoder does not handle): the bytes
+			// themselves are still the variable's value
+			var pv probeValue
+			if rerr := fs.GetVar(storeVar(name), &pv); rerr == nil {
+				return "raw " + hx(pv.got)
+			}
 			return "err"
 		}
 		return "ok " + hx(db.Bytes())
@@ -90,12 +96,7 @@ func init() {
 			switch op.K {
 			case "W":
 				var err error
-				if isSecureBootVar(op.Var) {
-					db, derr := signature.ReadSignatureDatabase(bytes.NewReader(unhx(op.Value)))
-					if derr != nil {
-						out = append(out, "bad-value")
-						continue
-					}
+				if db, derr := signature.ReadSignatureDatabase(bytes.NewReader(unhx(op.Value))); isSecureBootVar(op.Var) && derr == nil {
 					err = fs.WriteVar(v, &db)
 				} else {
 					err = fs.WriteVar(v, rawValue(unhx(op.Value)))
@@ -105,12 +106,7 @@ func init() {
 				key := poolKeyDir(a["verif"], 2048, op.Key)
 				cert := makeRSACert(key, certShapes(nil)[0])
 				var m efivar.Marshallable = rawValue(unhx(op.Value))
-				if isSecureBootVar(op.Var) {
-					db, derr := signature.ReadSignatureDatabase(bytes.NewReader(unhx(op.Value)))
-					if derr != nil {
-						out = append(out, "bad-value")
-						continue
-					}
+				if db, derr := signature.ReadSignatureDatabase(bytes.NewReader(unhx(op.Value))); isSecureBootVar(op.Var) && derr == nil {
 					m = &db
 				}
 				out = append(out, errCls(fs.WriteSignedUpdate(v, m, key, cert)))
@@ -176,6 +172,9 @@ func c12Eval(c *Ctx, cs Case) {
 				continue
 			}
 			w := "ok " + v
+			if _, derr := signature.ReadSignatureDatabase(bytes.NewReader(unhx(v))); isSecureBootVar(op.Var) && derr != nil {
+				w = "raw " + v // a database of list types the decoder does not handle: compared as bytes
+			}
 			want = append(want, w)
 			if outs[i] != w {
 				m := ""
@@ -227,6 +226,10 @@ func c12Gen(c *Ctx) {
 		hx(encodeList(tSHA256, nil, 48, [][2][]byte{{u.owners[0], u.data[0]}, {u.owners[1], u.data[1]}})),
 		hx(append(encodeList(tX509, nil, len(u.data[4])+16, [][2][]byte{{u.owners[0], u.data[4]}}), encodeList(tSHA256, nil, 48, [][2][]byte{{u.owners[1], u.data[1]}})...)),
 		hx(encodeList(tX509, nil, len(u.data[7])+16, [][2][]byte{{u.owners[0], u.data[7]}})),
+		// well-formed databases with list types that SignatureDatabase.Append builds but the decoder does not handle
+		// (SHA-1: 20-byte hashes; SHA-384: 48-byte hashes), alone and behind a SHA-256 list
+		hx(encodeList(tSHA1, nil, 36, [][2][]byte{{u.owners[0], u.data[0][:20]}})),
+		hx(append(encodeList(tSHA256, nil, 48, [][2][]byte{{u.owners[0], u.data[0]}}), encodeList(tSHA384, nil, 64, [][2][]byte{{u.owners[1], append(append([]byte{}, u.data[1]...), u.data[0][:16]...)}})...)),
 	}
 	raws := []string{"-", "01", hx(randBytes(c, 3)), hx(randBytes(c, 40)), hx(randBytes(c, 300))}
 	vars := []string{"PK", "KEK", "db", "dbx", "OrdA", "OrdB", "Ord0"}
@@ -272,7 +275,7 @@ func c12Gen(c *Ctx) {
 func init() {
 	register("C12", &PropDef{
 		Rule:   "histories of 2..10 (thorough ..30) operations over {PK, KEK, db, dbx, two ordinary variables, one ordinary variable declared with attribute mask 0}: plain writes, signed updates (RSA-2048) and reads; values that grow, shrink (to the empty database / empty value) and repeat (5 databases from empty to two lists with certificates, 5 raw values from 0 to 300 bytes); empty and pre-populated stores (With(...)); run in a worker process because a write may end the process on an unrepaired tree. Every read is compared with the register oracle and the Lean store model. Non-trivial: at least two operations; distinct = distinct histories.",
-		Assume: []string{"variables without the APPEND_WRITE attribute (the property's register semantics)", "payloads of signed secure-boot updates are well-formed signature databases"},
+		Assume: []string{"variables without the APPEND_WRITE attribute (the property's register semantics)", "values of secure-boot variables are well-formed signature databases (any list type of ValidEFISignatureSchemes, including types the decoder does not handle; those are compared as bytes)"},
 		Eval:   c12Eval, Gen: c12Gen,
 	})
 }
